@@ -10,13 +10,13 @@ TB = ("clang 14 front end + constant evaluator; bin/fsx serialisation of the ins
 
 CLAIMED = {
  "C08": dict(technique="custom clang-LibTooling AST extraction + guard-order (short-circuit aware must-facts) and must-precede dataflow rules; constant evaluation of table shapes",
-             text="Static decision of three necessary clauses of memory safety named by the property's anchors (filter call guarded by the bounds test, donors-table width, resume-before-resize) on every instantiated grid type, all paths. The bulk of index arithmetic over runtime data is not decided.",
+             text="Static decision of three necessary clauses of memory safety named by the property's anchors (filter call guarded by the bounds test, donors-table width, resume-before-resize) on every instantiated grid type, all paths, of 'no read after move', and -- shared with other properties' bounded interpretations -- that the spanning-tree resolver interpreted as a whole on small node graphs (with and without a masked node) and the mesh / basin-graph code index no table out of bounds, and that no setter overload leaves a stride describing the previous array. The bulk of index arithmetic over runtime data is not decided.",
              ref="§5 C08"),
  "C11": dict(technique="custom AST rules on resolved std::atomic / condition_variable / lock calls: memory-order constants, predicate-wait and state-change-under-mutex discipline, must-precede ordering of the handshake",
-             text="Static decision, on all paths of thread_pool's functions, of the synchronisation discipline (release/acquire hand-off, no lost wake-up by construction, handshake ordering). Exactly-once execution and partition arithmetic are not decided.",
+             text="Static decision, on all paths of thread_pool's functions, of the synchronisation discipline (release/acquire hand-off, no lost wake-up by construction, handshake ordering, run_tasks() publishes the task set installed by the preceding set_tasks()), and, within a bound, of the block partition arithmetic and of run_blocks' dispatch (each index exactly once, twice on the same pool). Exactly-once execution under every schedule is not decided as such.",
              ref="§5 C11"),
  "C13": dict(technique="abstract interpretation over (a) an interval domain for the linear-case classification and the Newton exit test, (b) an exact rational-function domain with uninterpreted pow (numeric representatives deciding the control path) for the discrete equation; who-may-write rule",
-             text="Decides, as symbolic identities valid for all values, that the linear-case erosion is the exact solution of the backward-Euler equation (1 and 2 receivers) and that the Newton loop evaluates the residual / update of that equation; that the linear-case classification is two-sided and the Newton exit test is two-sided (|residual| <= tolerance). The residual actually reached, rounding and iteration counts are numerical and not decided.",
+             text="Decides, as symbolic identities valid for all values, that the linear-case erosion is the exact solution of the backward-Euler equation (1 and 2 receivers) and that the Newton loop evaluates the residual / update of that equation; (in single- and multi-column tables); that the linear-case classification is two-sided and the Newton exit test is two-sided (|residual| <= tolerance); that the overloads of set_k_coef agree on the state they replace. The residual actually reached, rounding and iteration counts are numerical and not decided.",
              ref="§5 C13, §12.2"),
  "C10": dict(technique="effect summaries (access paths, aliases, index shapes, callee summaries through returned references) of every run_blocks callable per grid type; must-precede rule for the sequential donors rebuild; sibling write-set agreement",
              text="Decides race freedom of the parallel regions by an effect discipline (shared objects written only at block-derived indices) for all 7 grid instantiations and all paths, plus the ordering of the donors rebuild. Numeric equality beyond race freedom and identical per-index logic is not decided; user kernel callbacks are assumed index-partitioned.",
@@ -57,8 +57,8 @@ CLAIMED = {
  "C19": dict(technique="exhaustive abstract interpretation (flag domain) of compute_basins/pits over all short bottom-up sequences; must-kill analysis; must-precede freshness rule",
              text="Decides the labelling case analysis (masked -> reserved label, roots -> consecutive new labels + outlets, others -> current label), pits = non-base outlets, list resets, and that library-internal readers recompute basins first. 'Same label as its receiver' on arbitrary graphs depends on the bottom-up order property and is not decided.",
              ref="§5 C19"),
- "C07": dict(technique="symbolic abstract interpretation of the raster/profile neighbour tables (offsets, counts, linearisation) for every connectivity x looping configuration x node code x axis-length class; who-may-write purity; interpretation of the by-reference accessors for output-size agreement",
-             text="Decides that offset lists, neighbour counts and index linearisation equal the geometric specification for symbolic shapes (>= 3 per axis, plus the concrete 2-node class), that neighbour look-ups are memos of a pure function (cache on/off and query order cannot matter), that accessors draw from the same sources and return exactly `count` entries. Euclidean distances / statuses (xtensor expressions) and trimesh are not decided.",
+ "C07": dict(technique="symbolic abstract interpretation of the raster/profile neighbour tables (offsets, counts, linearisation) for every connectivity x looping configuration x node code x axis-length class; who-may-write purity; interpretation of the by-reference accessors for output-size agreement; concrete interpretation of the distance table builder and of the (row, col) accessors on representative shapes",
+             text="Decides that offset lists, neighbour counts and index linearisation equal the geometric specification for symbolic shapes (>= 3 per axis, plus the concrete 2-node class), that neighbour look-ups are memos of a pure function (cache on/off and query order cannot matter), that accessors draw from the same sources and return exactly `count` entries; on representative shapes (every looping configuration, spacing dy != dx) that every entry of the per-code distance table is one Euclidean step long, looped borders included, and that the (row, col) accessors report the row and column of each neighbour's flat index on torus neighbourhoods. Distances on other shapes, neighbour statuses and trimesh are not decided.",
              ref="§5 C07"),
  "C15": dict(technique="bounded exhaustive abstract interpretation (order representatives for pass elevations) of connect_basins, Kruskal, Boruvka and orient_edges on all basin graphs of <= 4 basins / small node graphs, each run twice on the same object",
              text="Decides, within the stated bound (<= 4 basins, all weight orders incl. ties; paths and a 2x3 raster with all elevation assignments from 3 levels), that the tree spans with basins-1 edges and minimum weight for both methods, that edges are oriented away from the root with passes swapped consistently, and that connect_basins keeps the lowest pass per adjacent pair. No argument is made for larger graphs; Boruvka's large-degree path is outside the bound.",
